@@ -22,6 +22,7 @@ type gen struct {
 	fullPrims int                         // how many leaves may still range over all 18 primitives
 	fullEnums int                         // how many enums may still range over all 9 base types
 	tparam  *dsl.GenericTypeParameter
+	bulk    *c05bWorld // when set (zz_c05_bulk.go): emitted serializer expressions get structural plans and the runtime's bulk (memcpy) meaning
 }
 
 func newGen() *gen {
